@@ -70,6 +70,8 @@ FUNCS = [
     ("rtrlib/lib/convert_byte_order.c", "lrtr_convert_long", {}),
     ("rtrlib/rtr/rtr.c", "rtr_get_interval_mode", {}),
     ("rtrlib/rtr/rtr.c", "rtr_set_interval_mode", {}),
+    ("rtrlib/transport/transport.c", "tr_send_all", {"mem": ["pdu"], "world": True}),
+    ("rtrlib/transport/transport.c", "tr_recv_all", {"mem": ["pdu"], "world": True}),
     ("rtrlib/rtr/packets.c", "rtr_check_interval_range", {}),
     ("rtrlib/rtr/packets.c", "apply_interval_value", {}),
     ("rtrlib/rtr/packets.c", "rtr_check_interval_option", {}),
@@ -104,6 +106,8 @@ INT_TYPES = {
 BSWAP = {"ntohl": 32, "htonl": 32, "__bswap_32": 32, "__builtin_bswap32": 32, "__uint32_identity": None,
          "ntohs": 16, "htons": 16, "__bswap_16": 16, "__builtin_bswap16": 16}
 IGNORED_CALLS = {"lrtr_dbg"}
+# calls that leave the translated code: answered by the world (RtrModel/CSem.lean `World`), arguments recorded
+EXTERN = {"lrtr_get_monotonic_time": "time", "tr_send": "io", "tr_recv": "io"}
 
 
 class Untranslatable(Exception):
@@ -609,6 +613,9 @@ class Fn:
         self.memparams = set(opts.get("mem", []))
         self.uses_mem = bool(self.memparams)
         self.writes_mem = bool(opts.get("writes"))
+        self.uses_world = bool(opts.get("world"))
+        self.aux = []             # auxiliary definitions (loops), in dependency order
+        self.nloops = 0
         self.params = []          # (cname, Ty, mode)  mode in scalar/value/inout/mem
         self.vars = {}            # cname -> {"ty": Ty, "mode": ...}
         self.ret = None
@@ -661,6 +668,8 @@ class Fn:
 
     def sig(self):
         ps = []
+        if self.uses_world:
+            ps.append("(w : C.World)")
         if self.uses_mem:
             ps.append("(mem : Nat → BitVec 8) (msize : Nat)")
         for name, ty, mode in self.params:
@@ -683,6 +692,8 @@ class Fn:
             parts.append(struct_lean_name(ty.elem.name))
         if self.writes_mem:
             parts.append("(Nat → BitVec 8)")
+        if self.uses_world:
+            parts.append("C.World")
         if not parts:
             return "Unit"
         return " × ".join(parts)
@@ -695,6 +706,8 @@ class Fn:
             parts.append(self.ln(n))
         if self.writes_mem:
             parts.append("mem")
+        if self.uses_world:
+            parts.append("w")
         if not parts:
             return "()"
         return "(" + ", ".join(parts) + ")" if len(parts) > 1 else parts[0]
@@ -1205,27 +1218,65 @@ class Fn:
             self.find_calls(c, strict, out)
         if k == "CallExpr":
             name = self.callee_name(n)
-            if name in self.translated or self.inlinable(name):
+            if name in self.translated or name in EXTERN or self.inlinable(name):
                 if not strict:
                     bad("call of '%s' under a short-circuit operator" % name, n)
                 out.append(n)
         return out
 
+    def emit_extern(self, n, env, k):
+        """a call that leaves the translated code: the world supplies its result and records its arguments"""
+        name = self.callee_name(n)
+        if not self.uses_world:
+            bad("external call '%s' in a function without a world" % name, n)
+        args = n["inner"][1:]
+        kind = EXTERN[name]
+        tmp = self.fresh("r")
+        if kind == "time":
+            # int lrtr_get_monotonic_time(time_t *seconds): writes the next clock reading through the pointer
+            a = args[0]
+            while a.get("kind") in ("ImplicitCastExpr", "ParenExpr"):
+                a = a["inner"][0]
+            if a.get("kind") != "UnaryOperator" or a.get("opcode") != "&":
+                bad("lrtr_get_monotonic_time needs &local", n)
+            p = self.lvalue_path(a["inner"][0], env)
+            if p["steps"] or p["ty"].kind != "int" or p["ty"].bits != 64:
+                bad("lrtr_get_monotonic_time target must be a time_t local", n)
+            n["_hoisted"] = V(tmp, Ty("int", 32, True))
+            env2 = copy_env(env)
+            env2["defined"].add(p["root"])
+            return "match C.extTime w with\n| (%s, t_, w) =>\n  let %s : BitVec 64 := t_\n%s" % (tmp, self.ln(p["root"]), indent(k(env2), 2))
+        if kind == "io":
+            # int tr_send/tr_recv(socket, buf, len, timeout): the world answers; (offset, len, timeout) are recorded
+            buf, ln_, to = (self.expr(a, env) for a in args[1:4])
+            ln_ = self.as_int(ln_, Ty("int", 64, False))
+            to = self.as_int(to, Ty("int", 64, True))
+            gs = buf.guards + ln_.guards + to.guards
+            n["_hoisted"] = V(tmp, Ty("int", 32, True))
+            return self.guarded(gs, "match C.extIo w %s %s %s with\n| (%s, w) =>\n%s" % (buf.text, ln_.text, to.text, tmp, indent(k(env), 2)))
+        bad("no handler for external call '%s'" % name, n)
+
     def inlinable(self, name):
         """a function defined in this translation unit that is not translated on its own: its body is inlined at the call
         (so that extracting a helper from a translated function changes nothing in the translation)"""
         return (name not in self.translated and name in self.tu.funcs and name not in BSWAP and name not in IGNORED_CALLS
-                and name not in ("memset", "memcpy", "memcmp") and name not in LISTED)
+                and name not in EXTERN and name not in ("memset", "memcpy", "memcmp") and name not in LISTED)
 
     def emit_call(self, n, env, k):
         """hoist one translated call: returns Lean text `match f args with | none => none | some r => <k(env)>`;
         marks n["_hoisted"] with the temp that holds its value"""
         name = self.callee_name(n)
+        if name in EXTERN:
+            return self.emit_extern(n, env, k)
         if name not in self.translated:
             return self.emit_inline(n, env, k)
         callee = self.translated[name]
         args = n["inner"][1:]
         texts, gs, writebacks = [], [], []
+        if callee.uses_world:
+            if not self.uses_world:
+                bad("call of '%s', which makes external calls, from a function without a world" % name, n)
+            texts += ["w"]
         if callee.uses_mem:
             if not self.uses_mem:
                 bad("call of memory-mode function '%s' from a function without memory" % name, n)
@@ -1272,6 +1323,8 @@ class Fn:
             if not self.writes_mem:
                 bad("call of memory-writing function '%s' from a function not declared as writing" % name, n)
             pats.append("mem")
+        if callee.uses_world:
+            pats.append("w")
         pat = "(" + ", ".join(pats) + ")" if len(pats) > 1 else (pats[0] if pats else "()")
         n["_hoisted"] = V(tmp, callee.ret)
         lines = []
@@ -1529,14 +1582,79 @@ class Fn:
                 env3 = copy_env(env)
                 env3["defined"].add(self.path_key(dst.path))
                 return "let %s : %s := %s\n%s" % (self.ln(root), rty, self.update_text(dst.path, src.text), nxt(env3))
-            if name in self.translated or self.inlinable(name):
+            if name in self.translated or name in EXTERN or self.inlinable(name):
                 return self.with_calls([s], env, nxt)
             bad("call of untranslated function '%s'" % name, s)
         if k in ("ImplicitCastExpr", "CStyleCastExpr", "ParenExpr"):
             return self.stmt(s["inner"][-1], env, ctx)
-        if k in ("ForStmt", "WhileStmt", "DoStmt", "GotoStmt", "LabelStmt", "ContinueStmt"):
-            bad("loops and jumps are not translated", s)
+        if k == "WhileStmt":
+            return self.loop(s, env, ctx, cond=s["inner"][0], body=s["inner"][-1], inc=None, test_first=True)
+        if k == "ForStmt":
+            init, _condvar, cond, inc, body = s["inner"]
+            if _condvar and _condvar.get("kind"):
+                bad("condition variable in for", s)
+            if not cond or not cond.get("kind"):
+                bad("for without condition", s)
+            inc = inc if inc and inc.get("kind") else None
+            if init and init.get("kind"):
+                return self.stmt(init, env, dict(ctx, next=lambda env2: self.loop(s, env2, ctx, cond=cond, body=body, inc=inc, test_first=True)))
+            return self.loop(s, env, ctx, cond=cond, body=body, inc=inc, test_first=True)
+        if k == "ContinueStmt":
+            if "cont" not in ctx:
+                bad("continue outside a loop", s)
+            return ctx["cont"](env)
+        if k in ("DoStmt", "GotoStmt", "LabelStmt"):
+            bad("do-loops and jumps are not translated", s)
         bad("unsupported statement", s)
+
+    def var_lean_type(self, name):
+        info = self.vars[name]
+        if info["mode"] in ("value", "inout"):
+            return struct_lean_name(info["ty"].elem.name)
+        if info["mode"] == "mem" or info["ty"].kind == "ptr":
+            return "Nat"
+        return info["ty"].lean()
+
+    def loop(self, s, env, ctx, cond, body, inc, test_first):
+        """`while (cond) body` / `for (;cond;inc) body`: an auxiliary definition, structurally recursive on a fuel argument,
+        that carries every variable in scope; what follows the loop is translated inside it (continuation passing), so it
+        returns the function's result.  Running out of fuel is `none` (a loop that does not terminate has no result)."""
+        if self.prefix:
+            bad("loop inside an inlined helper", s)
+        self.root.nloops += 1
+        lname_ = "%s.loop%d" % (self.name, self.root.nloops)
+        live = sorted(v for v in env["defined"] if v in self.vars and "alias" not in self.vars[v])
+        params = ["(fuel : Nat)"]
+        args = []
+        if self.uses_world:
+            params.append("(w : C.World)")
+            args.append("w")
+        if self.uses_mem:
+            params.append("(mem : Nat → BitVec 8) (msize : Nat)")
+            args += ["mem", "msize"]
+        for v in live:
+            params.append("(%s : %s)" % (self.ln(v), self.var_lean_type(v)))
+            args.append(self.ln(v))
+        again = lambda env2: "%s fuel %s" % (lname_, " ".join(args))
+        after = ctx["next"]
+
+        def step(env2):
+            if inc is None:
+                return again(env2)
+            return self.stmt(inc, env2, dict(ctx, next=again))
+        inner_ctx = dict(ctx, next=step, brk=lambda env2: after(env2), cont=step)
+        env_in = {"defined": set(live)}
+
+        def fin(env2):
+            c = self.as_bool(self.expr(cond, env2, "bool"))
+            b_txt = self.stmt(body, copy_env(env2), inner_ctx)
+            a_txt = after(copy_env(env2))
+            return self.guarded(c.guards, "if %s then\n%s\nelse\n%s" % (c.text, indent(paren(b_txt), 2), indent(paren(a_txt), 2)))
+        body_txt = self.with_calls([cond], env_in, fin)
+        d = "def %s %s : Option (%s) :=\n  match fuel with\n  | 0 => none\n  | fuel + 1 =>\n%s" % (
+            lname_, " ".join(params), self.root.result_type(), indent(body_txt, 4))
+        self.root.aux.append(d)
+        return "%s C.FUEL %s" % (lname_, " ".join(args))
 
     def memset(self, s, env, nxt):
         args = s["inner"][1:]
@@ -1756,7 +1874,7 @@ class Fn:
         if "__UNINIT__" in txt:
             pass
         head = "def %s %s : Option (%s) :=" % (self.name, self.sig(), self.result_type())
-        return head + "\n" + indent(txt, 2)
+        return "".join(a + "\n\n" for a in self.aux) + head + "\n" + indent(txt, 2)
 
 
 def copy_env(env):
